@@ -58,6 +58,24 @@ class Env:
 
         self.comp = C02Comp
         registry.register("c02comp", C02Comp)
+
+        # receivers for {% slot %} kwargs (observed as slot data in a fill) and {% provide %} kwargs (observed
+        # through inject()); both need the arguments inside a component template / around a consumer
+        @template_tag(library, tag="c02grab", end_tag=None)
+        def c02grab(node, context, value):
+            box.append(([], dict(value), None))
+            return ""
+
+        class C02Inj(Component):
+            template = ""
+
+            def get_context_data(self):
+                box.append(([], dict(self.inject("c02k")._asdict()), None))
+                return {}
+
+        registry.register("c02inj", C02Inj)
+        self.Component, self.registry = Component, registry
+        self.nslot = 0
         self.ev = tg.Evaluator()
 
     def run_source(self, source, ctxd):
@@ -70,6 +88,40 @@ class Env:
         if len(self.box) != 1:
             return ("exc", "ProbeNotCalledOnce", str(len(self.box)))
         return ("ok", self.box[0])
+
+
+def kwargs_only(params, identifiers_only):
+    """The sub-list of params usable on a kwargs-only tag; None if nothing is left."""
+    import keyword
+
+    out = []
+    for p in params:
+        if p[0] == "kw":
+            key = p[1]
+            if identifiers_only and (":" in key or not key.isidentifier() or keyword.iskeyword(key) or key.startswith("_")):
+                continue
+            if key in ("name", "default", "required"):
+                continue
+            out.append(p)
+        elif p[0] == "spread" and p[1][0] == "var" and p[1][1] in tg.VARS_MAP and not identifiers_only:
+            out.append(p)
+    return out or None
+
+
+def run_slot_receiver(env, ps, src_args, ctxd):
+    """{% slot "s" <args> / %} inside a fresh component template; the fill grabs the slot data."""
+    env.nslot += 1
+    name = f"c02slot{env.nslot}"
+    cls = type("C02Slot%d" % env.nslot, (env.Component,), {"template": '{% slot "s"' + src_args + " / %}"})
+    env.registry.register(name, cls)
+    try:
+        return env.run_source('{% component "' + name + '" %}{% fill "s" data="d" %}{% c02grab d %}{% endfill %}{% endcomponent %}', ctxd)
+    finally:
+        env.registry.unregister(name)
+
+
+def run_provide_receiver(env, ps, src_args, ctxd):
+    return env.run_source('{% provide "c02k"' + src_args + ' %}{% component "c02inj" / %}{% endprovide %}', ctxd)
 
 
 def nontrivial(features):
@@ -154,6 +206,35 @@ def check_ast(env, rec, params, features, rng, ctx_indices, n_layouts, case_base
                     case = dict(case_base, params=ps, ctx=ci, source=src, receiver=receiver, layout_seed=lseed, layout_index=li)
                     rec.report("wrong-arguments", case, {"what": prob, "source": src}, known=classify(env, ps, exp, got, receiver, lseed, li, src, ctxd))
                     break  # one report per (ast, ctx, receiver)
+        # kwargs-only receivers: {% slot %} data and {% provide %} payload (django mode so that the page
+        # variables are visible inside the component template that holds the slot tag)
+        for receiver, ident_only, runner in (("slot", False, run_slot_receiver), ("provide", True, run_provide_receiver)):
+            ps = kwargs_only(params, ident_only)
+            if ps is None:
+                continue
+            try:
+                e_args, e_kwargs, _ = env.ev.params(ps, env.Context(dict(ctxd)))
+                exp2 = ("ok", tg.norm_call([], e_kwargs))
+            except Exception as e:  # noqa: BLE001
+                exp2 = ("exc", type(e).__name__)
+            for li in range(2):
+                lseed = rng.random()
+                L = tg.Layout(random.Random(lseed), loose=(li > 0))
+                src_args = tg.render_params(ps, L)
+                got = runner(env, ps, src_args, ctxd)
+                rec.observe("renders-compared")
+                rec.count("receiver:" + receiver)
+                prob = None
+                if exp2[0] == "ok":
+                    if got[0] != "ok":
+                        prob = f"reference gives a value but the tag raised {got[1]}: {got[2]}"
+                    elif tg.norm_call([], got[1][1]) != exp2[1]:
+                        prob = f"received {got[1][1]!r}, expected {e_kwargs!r}"
+                elif got[0] == "ok" or got[1] != exp2[1]:
+                    prob = f"reference raises {exp2[1]} but got {got[:2]!r}"
+                if prob:
+                    rec.violation("wrong-arguments", dict(case_base, params=ps, ctx=ci, source=src_args, receiver=receiver), {"what": prob, "source": src_args})
+                    break
 
 
 def plan(tier, seed):
